@@ -32,13 +32,25 @@ Proof.
   intros eqc t. apply like_literal.
 Qed.
 
-Definition plain_like_dialect (d : dialect) : bool := match d with Sqlite | Firebird | Maxdb => true | _ => false end.
+(* dialects for which no argument at all is excluded *)
+Definition unguarded_like_dialect (d : dialect) : bool :=
+  match d with Sqlite | Firebird | Maxdb | Mysql => true | _ => false end.
 
-Lemma helper_literal_ansi d k s :
-  plain_like_dialect d = true ->
+Lemma helper_literal_unguarded d k s :
+  unguarded_like_dialect d = true ->
   exists lit pat, pattern_literal d k s = Some lit /\ lex_lit d lit = Some (pat, []) /\
     forall eqc t, like_match eqc (Some c_bsl) pat t = literal_pred eqc k s t.
 Proof. intros Hd. apply helper_literal. destruct d; try discriminate Hd; reflexivity. Qed.
+
+(* postgres: every NUL-free argument *)
+Lemma helper_literal_pg k s :
+  contains c_nul s = false ->
+  exists lit pat, pattern_literal Postgres k s = Some lit /\ lex_lit Postgres lit = Some (pat, []) /\
+    forall eqc t, like_match eqc (Some c_bsl) pat t = literal_pred eqc k s t.
+Proof.
+  intros Hn. apply helper_literal. unfold like_ok, str_ok. change c_nul with 0 in *.
+  now rewrite contains_nul_wanted, Hn.
+Qed.
 
 Lemma startswith_exact d s t :
   like_ok d KStarts s = true ->
